@@ -160,8 +160,14 @@ class _Scan:
                     self.expr(m, st.value, None)
                     self.callable_value(m, st, [t for t in targets if isinstance(t, ast.Name)])
                 continue
-            if isinstance(st, ast.If) and (_is_main_guard(st) or _is_type_checking_guard(st)):
+            if isinstance(st, ast.If) and _is_main_guard(st):
                 continue
+            if isinstance(st, ast.If) and not st.orelse:
+                # `if TYPE_CHECKING:` — the body never runs (typing.TYPE_CHECKING is False at run time), whatever it contains
+                dn = _dotted(st.test)
+                r = self.resolve(m, dn) if dn else None
+                if r is not None and r[0] == "ext" and r[1] == "typing.TYPE_CHECKING":
+                    continue
             if isinstance(st, ast.Pass):
                 continue
             # anything else is code run at import that the path analysis never sees
